@@ -237,9 +237,15 @@ def run(ctx):
     ctx.trusted += ["jax.jacfwd and spsolve only affect convergence of solve(); its output is checked by the certificate",
                     "stub fluid with rational cp, rho, film laws (shipped polynomial fluids are covered by C18)",
                     "scipy interp1d in time (linear), mirrored by the harness"]
+    from harness import translators
+    ctx.trusted += ["translator harness/translators/flowlinks.py (Python ast -> Gallina expressions, elementwise reading of the numpy code)"]
+    translators.import_all()
+    ctx.gen("FlowLinks", translators.REGISTRY["FlowLinks"])
     ctx.prove("C14")
+    ctx.prove("C14_links")
     if ctx.tier == "thorough":
         ctx.coqchk("C14")
+        ctx.coqchk("C14_links")
     rng = ctx.rng
     cases = [gen_case(rng, i, solve=(i % 3 == 0)) for i in range(ctx.budget(90, 600))]
     results = run_impl("c14_flow", {"cases": [to_impl(c) for c in cases]}, timeout=1500)["results"]
